@@ -236,6 +236,18 @@ func TestC03Replay(t *testing.T) {
 `, k.Cfg.GoLiteral(), k.Debug, k.Req.Method, http.Header(k.Req.Hdr))
 }
 
+// c03SpliceBases: hosts that share suffixes at several depths (listed so that radix-tree nodes that already have
+// children get split).
+var c03SpliceBases = []string{"example.com", "api.example.com", "sample.com", "cat", "concat", "bat", "a.cat", "xample.com", "pi.example.com"}
+
+func c03SpliceHosts(prefix string) []string {
+	out := make([]string, len(c03SpliceBases))
+	for i, h := range c03SpliceBases {
+		out[i] = prefix + h
+	}
+	return out
+}
+
 func c03Configs() []CfgLit {
 	disc := []string{"https://a.b", "https://*.a.b", "https://b.a:*", "http://1.2.3.4", "http://[::1]", "ab://c", c01Scheme64 + "://" + c01Host253 + ".:*",
 		"http://a.b:8100", "ionic://a.b", "capacitor://a.b:81", "coap+tcp://*.a.b:8", "ab://c:18", "https://*.c.d.", "https://e.f.", "https://*.g.h.:*"}
@@ -246,6 +258,7 @@ func c03Configs() []CfgLit {
 		{Origins: disc, PNA: true, ResponseHeaders: []string{"*"}, Methods: []string{"*"}, RequestHeaders: []string{"*"}, TolInsecure: true, TolPSL: true},
 		{Origins: []string{"https://a.b", "*", "https://*.a.b"}, ResponseHeaders: []string{"X-R"}, Methods: []string{"PUT"}, RequestHeaders: []string{"X-A"}},
 		{Origins: append(append([]string{}, richOrigins...), "https://a.b"), Credentialed: true, Methods: richMethods, RequestHeaders: richReqHdrs, ResponseHeaders: richResHdrs, MaxAge: 600, Status: 201, TolInsecure: true, TolPSL: true},
+		{Origins: c03SpliceHosts("https://"), Credentialed: true, ResponseHeaders: []string{"X-R"}, Methods: []string{"PUT"}, RequestHeaders: []string{"X-A"}},
 		{Origins: disc, Credentialed: true, PNANoCORS: true, ResponseHeaders: []string{"X-R"}, MaxAge: 30, Methods: []string{"*"}, RequestHeaders: []string{"*"}, TolInsecure: true, TolPSL: true, Status: 200},
 	}
 }
@@ -393,6 +406,29 @@ func checkC03(c *vlib.Ctx) (string, string) {
 	})
 	c.States.Add(int64(len(byteVals)))
 	c.Set("single_byte_variations", len(byteVals))
+	// every splice of a prefix of one host of the suffix-sharing configuration with a suffix of another
+	seenSplice := map[string]bool{}
+	var splices []string
+	for _, h1 := range c03SpliceBases {
+		for _, h2 := range c03SpliceBases {
+			for i := 0; i <= len(h1); i++ {
+				for j := 0; j <= len(h2); j++ {
+					if v := h1[:i] + h2[j:]; v != "" && !seenSplice[v] {
+						seenSplice[v] = true
+						splices = append(splices, "https://"+v)
+					}
+				}
+			}
+		}
+	}
+	c.ParRange(int64(len(splices)), 256, "C03 spliced hosts", func(i int64) {
+		rec := vlib.NewRec()
+		for _, r := range shapes(splices[i])[:2] {
+			try(rec, r)
+		}
+	})
+	c.States.Add(int64(len(splices)))
+	c.Set("spliced_hosts", len(splices))
 	// (B) request-shape-focused
 	reps := []string{"https://a.b", "https://x.a.b", "https://b.a:8080", "http://1.2.3.4", "http://[::1]", "ab://c", "https://xa.b", "https://a.b:8443", "http://a.b", "https://a.b.evil", "null", "https://a.b/", "https://[a.b]", "", "garbage", "https://A.B"}
 	methods := []string{"GET", "OPTIONS", "PUT", "get", "options", "HEAD"}
